@@ -118,6 +118,12 @@ CHECKS = {
   text="Trees to depth 6 over every expression and statement form, rendered under drawn layouts (spaces/tabs, comments, blank lines, continuations, line breaks in brackets, trailing commas, ';', one-line suites, indentation widths, LF/CRLF, minimal or redundant parentheses from a precedence table written from the spec) and literal spellings (all int bases and sizes, float forms, every string/bytes escape, raw and triple-quoted): Parse must return exactly the tree, with exact literal values and each node's start position; the returned tree re-rendered minimally must have the input's tokens. All 21x21 operator pairs in both nestings, unary x binary, conditional/lambda/tuple in every position are enumerated exhaustively under 4 layouts. Near misses (delete/duplicate/swap/replace one token incl. NEWLINE/INDENT), comparison chains and 419 listed texts are classified by an independent three-valued reference parser: reject => Parse or resolve.File rejects with a position inside the text; accept => same tree and positions.",
   design_ref="DESIGN.md section 4, C14",
   note="Rejection of ungrammatical text rests on the hand-written reference parser (answers 'unsure' where spec and implementation are known to diverge or the spec is silent: tabs in indentation, escapes above 127, '00', 'a[1,]'); depth > 6 and REPL scanning are not covered."),
+ "C20": dict(
+  technique="model-based property testing: exhaustive kind x position x value grid plus a rapid state machine over construct/assign/alias/copy/view/freeze/mutate/marshal histories against a typed reference model with explicit sharing",
+  category="exploration",
+  text="Descriptors are built in the harness (proto3 with every scalar kind as singular, repeated, map key and map value, enum, nested/repeated/map messages, a recursive type; proto2 with defaults, required, groups, closed enum and extensions). Grid (exhaustive, 25530 cases): 17 kinds x 19 positions x ~69 values incl. min-1/min/max/max+1, wrong types, None, NaN, bytes for string, invalid UTF-8, enums by number/name/value/foreign: every step must return or error (a Go panic is a violation), accepted values read back exactly with the kind's Starlark type and range, a failing step changes nothing. State machine: up to 4 messages and 8 views under construct, copy M(m), assign, alias, view, element/key writes, freeze, round trips: after every step every handle equals the model, binary and text round trips reproduce it, and every frozen handle's printed form is unchanged.",
+  design_ref="DESIGN.md section 4, C20",
+  note="Trusts the reference model (aliasing on message assignment, shallow copy, copy on list/map assignment, as the package documents); three catalogued findings are excluded by narrow predicates (two ways a frozen message changes through a copy or alias; extensions lost on unmarshal); oneof and cyclic messages are not covered."),
 }
 
 PENDING_REASON = "check not built yet in this session (work in progress; DESIGN.md section 4 describes the planned generated-input check)"
